@@ -147,6 +147,14 @@ func init() {
 		e.sol.Assert(IntCmp(">=", t, IntC(bigZero())))
 		return newBig(t)
 	}
+	intrinsics[S+"SameFunc"] = func(e *Exec, a []Value) Value {
+		fa, ok1 := a[0].(VIface).Val.(VFunc)
+		fb, ok2 := a[1].(VIface).Val.(VFunc)
+		if !ok1 || !ok2 {
+			e.fail("SameFunc on non-functions")
+		}
+		return VBool{BoolC(fa.Fn == fb.Fn && fa.Fn != nil)}
+	}
 	intrinsics[S+"Symbolic"] = func(e *Exec, a []Value) Value { return VBool{BoolC(true)} }
 
 	verifHooks["verifBool"] = func(e *Exec, a []Value) Value {
